@@ -2230,6 +2230,10 @@ func (m *Msg) WriteTo(writer io.Writer) (int64, error) {
 	msg := m.applyMiddlewares(m)
 
 	if m.hasSMIME() {
+		// The header lines are counted while the message is rendered for signing. A count left
+		// behind by an earlier rendering that did not complete (i. e. a failed signing) or by
+		// WriteToSkipMiddleware must not be added to it
+		m.headerCount = 0
 		if err := m.signMessage(); err != nil {
 			return 0, err
 		}
